@@ -20,7 +20,7 @@ Node-level sessions (Aergo.Model.GovNode; a tx is one of the transaction lines a
   ev reorg <k> <failAt|-> <txs / txs / ..>         -> `ok | <state>` / `fail | <state>`
   ev restart
 Pure ops:
-  less <candA> <amtA> <candB> <amtB>        -> `<Less(a,b)> <Less(b,a)>` or `panic`
+  less <candA> <amtA> <candB> <amtB>        -> `<Less(a,b)> <Less(b,a)>`
   rank <cand:amt,cand:amt,..>               -> the sorted list (ties in canonical order)
   codec staking <when> <amountBytes>        -> serialisation and its deserialisation
   codec vote <cand> <amountBytes> | codec voteex <cand> <amountBytes>
@@ -288,8 +288,7 @@ def c15StepSt (s : St) (line : String) : St × String :=
     | some ca, some aa, some cb, some ab =>
       let a : Entry := (ca, aa)
       let b : Entry := (cb, ab)
-      if lessPanics a b || lessPanics b a then (s, "panic")
-      else (s, s!"{if less a b then 1 else 0} {if less b a then 1 else 0}")
+      (s, s!"{if less a b then 1 else 0} {if less b a then 1 else 0}")
     | _, _, _, _ => bad
   | ["rank", l] =>
     match parseEntries l with
